@@ -916,6 +916,9 @@ Fixpoint block_visit (c : config) (fuel : nat) (n : node) (t : tstate) {struct f
             | Some (_, _) => None
             | None => None
             end
+      | Node (K KArrow _ _) _ =>
+          (* visit_mut_arrow_expr: an arrow reached by the block visitor lies outside every block *)
+          children (if status_eqb (t_status t) Cancelled then n else arrow_transform n) t
       | _ => children n t
       end
   end.
